@@ -25,6 +25,8 @@ class C01(ParserSessionProp):
         # beam settings under which every reading of the thresholds admits the same tags (DESIGN 3.10)
         k['use_beta'] = rng.random() < 0.3
         k['beta'] = 1e-30 if k['use_beta'] else 1e-5
+        # the Viterbi reference is polynomial: longer sentences than the enumerating checks can afford
+        k['max_len'] = rng.choice([4, 6, 6, 8]) if tier == 'quick' else rng.choice([6, 8, 10])
         return k
 
     def check_call(self, world, op, rec, stats, spec):
